@@ -288,6 +288,22 @@ def compare(node: ast.Compare, env: Env) -> Term:
             parts.append(("forall", dom, ("in", bv, _unset(big_n, env))))
             continue
         a, b = T(a_node, env), T(b_node, env)
+        # the subset idiom with the set bound to a local first:  boxes = set(..); boxes <= S
+        def _set_term(t):
+            if isinstance(t, tuple) and t and t[0] == "call" and t[1] is None and t[2] in ("set", "frozenset") and len(t[3]) == 1 and not t[4]:
+                return t[3][0]
+            if isinstance(t, tuple) and t and t[0] == "comp" and t[1] == "set":
+                return ("comp", "gen") + t[2:]
+            return None
+
+        if sym in ("<=", ">=") and (_set_term(a) is not None or _set_term(b) is not None):
+            small_t, big_t = (a, b) if sym == "<=" else (b, a)
+            small_t = _set_term(small_t) if _set_term(small_t) is not None else small_t
+            big_t = _set_term(big_t) if _set_term(big_t) is not None else big_t
+            inner = env.child()
+            bv = ("bv", inner.depth, 0)
+            parts.append(("forall", ("iter", small_t), ("in", bv, big_t)))
+            continue
         # the same idiom with the next(...) bound to a local first
         if sym in ("is not", "is") and isinstance(b_node, ast.Name) and b_node.id not in env.names and b_node.id.lstrip("_").isupper() \
                 and isinstance(a, tuple) and a and a[0] == "call" and a[1] is None and a[2] == "next" and len(a[3]) == 2 and a[3][1] == b:
